@@ -95,6 +95,40 @@ Proof.
 Qed.
 
 (* ------------------------------------------------------------------ *)
+(* what the scanner does on ALL strings, well-formed or not: a declarative description *)
+
+Inductive Scan (f : str -> str) : str -> str -> Prop :=
+| Scan_nil : Scan f [] []
+| Scan_copy c s o : c <> cL -> Scan f s o -> Scan f (c :: s) (c :: o)
+| Scan_name n r o : n <> [] -> ~ In cSEMI n -> Scan f r o ->
+    Scan f (cL :: n ++ cSEMI :: r) (cL :: f n ++ cSEMI :: o).
+
+Lemma map_desc_f_scan f : forall k s o, map_desc_f k f s = Ok o -> Scan f s o.
+Proof.
+  induction k as [|k IH]; intros s o; cbn [map_desc_f]; [discriminate|].
+  destruct s as [|c s]; [intros [= <-]; constructor|].
+  destruct (N.eqb_spec c cL) as [->|Hc].
+  - destruct s as [|c1 s]; [discriminate|]. destruct (N.eqb_spec c1 cSEMI) as [|Hc1]; [discriminate|].
+    destruct (take_until_semi s) as [[n r]|] eqn:E; [|discriminate].
+    destruct (map_desc_f k f r) as [o'|] eqn:E2; [|discriminate]. intros [= <-].
+    apply take_until_semi_spec in E as [-> Hn].
+    change (cL :: c1 :: n ++ cSEMI :: r) with (cL :: (c1 :: n) ++ cSEMI :: r).
+    apply Scan_name; [discriminate| |apply IH; exact E2].
+    intros [H|H]; [congruence|contradiction].
+  - destruct (map_desc_f k f s) as [o'|] eqn:E2; [|discriminate]. intros [= <-].
+    apply Scan_copy; [exact Hc|apply IH; exact E2].
+Qed.
+
+Theorem map_desc_scan f s o : map_desc f s = Ok o <-> Scan f s o.
+Proof.
+  split; [apply map_desc_f_scan|].
+  induction 1 as [|c s o Hc _ IH|n r o Hn Hs _ IH].
+  - reflexivity.
+  - rewrite map_desc_copy by exact Hc. rewrite IH. reflexivity.
+  - rewrite map_desc_L by assumption. rewrite IH. reflexivity.
+Qed.
+
+(* ------------------------------------------------------------------ *)
 (* the grammar pieces *)
 
 Lemma ClassNameG_nonempty n : ClassNameG n -> n <> [].
